@@ -395,6 +395,14 @@ func (e EvmEngine) genC10(r *Run) Step {
 			ch := st.Chains[0]
 			return blk(Tx{K: "send_to_external", S: v, A: A("chain", ch.Name, "denom", "usdt", "amount", 100+r.Rng.IntN(500), "fee", 1+r.Rng.IntN(9), "dest", ExtAddrStr(ch.Name, w.Key("extuser", 3).Hex()))})
 		default:
+			if m.phase == 9 {
+				// the attackers hold bridged tokens in ERC-20 form too (fee top-ups on other people's transfers need them)
+				var txs []Tx
+				for _, ai := range c10Attackers {
+					txs = append(txs, Tx{K: "convert_coin", S: KeyName("user", ai), A: A("denom", "usdt", "amount", 300+r.Rng.IntN(500), "receiver", w.Key("user", ai).Hex().Hex())})
+				}
+				return blk(txs...)
+			}
 			return blk(Tx{K: "convert_coin", S: v, A: A("denom", "usdt", "amount", 500+r.Rng.IntN(2000), "receiver", w.Key("user", vi).Hex().Hex())})
 		}
 	}
@@ -453,12 +461,20 @@ func (e EvmEngine) genC10(r *Run) Step {
 			}
 		}
 		return blk(pc(att, "staking", "transferFromShares", val(), victim, fmt.Sprintf("$user%d", c10Attackers[r.Rng.IntN(2)]), amt.String()))
-	case 3: // cancel or fee-bump the victim's queued withdrawal
+	case 3, 11: // cancel or fee-bump the victim's queued withdrawal
 		for _, p := range view.Pool {
 			for _, vi := range c10Victims {
 				if p.Sender == w.Key("user", vi).Bech() {
-					if r.Pct(60) {
+					if r.Pct(45) {
 						return blk(pc(att, "crosschain", "cancelSendToExternal", "$chain", fmt.Sprint(p.Id)))
+					}
+					if r.Pct(50) {
+						// the fee of somebody else's transfer may be topped up by anybody (Cosmos message, paid in the bridge
+						// denomination, which the attacker first obtains from its coins): the transfer stays its owner's
+						ch := st.Chains[0]
+						bd := cctypes.NewBridgeDenom(ch.Name, ExtAddrStr(ch.Name, tokenContract(ch.Name, "USDT")))
+						return blk(Tx{K: "convert_denom", S: att, A: A("denom", "usdt", "amount", 5, "receiver", w.KeyByName(att).Bech(), "target", ch.Name)},
+							Tx{K: "increase_fee", S: att, A: A("chain", ch.Name, "id", p.Id, "denom", bd, "fee", 1+r.Rng.IntN(3))})
 					}
 					return blk(pc(att, "token:USDT", "approve", cctypes.GetAddress().Hex(), "100000"), pc(att, "crosschain", "increaseBridgeFee", "$chain", fmt.Sprint(p.Id), "$USDT", "2"))
 				}
